@@ -81,7 +81,7 @@ func keyOf(i int) string { return fmt.Sprintf("k%03d", i) }
 
 // open findings steer the main generator
 type c11Open struct {
-	deadlock, nonAtomic, stale, gap, resave, emptyCand, reindexDup bool
+	deadlock, nonAtomic, stale, gap, resave, emptyCand, reindexDup, sortRace bool
 }
 
 func c11OpenNow() c11Open {
@@ -93,6 +93,7 @@ func c11OpenNow() c11Open {
 		resave:     pbt.Open("C11", "patch-expired-resaves-removed-record"),
 		emptyCand:  pbt.Open("C11", "empty-candidate-set-matches-all"),
 		reindexDup: pbt.Open("C11", "reindex-duplicates-order-entry"),
+		sortRace:   pbt.Open("C11", "expiry-sort-reads-live-values"),
 	}
 }
 
@@ -902,6 +903,28 @@ func judgeC11(s C11Scenario, init map[string]kstate, cres []claimRes, mres []mut
 			}
 		}
 	}
+	// open finding expiry-sort-reads-live-values: a sort of the expiry index that overlaps a guard
+	// holder changing some record's ExpirationTime (lease, expiry slide, removal of a file-backed
+	// record) can leave OTHER records out of order; scenarios with such a trigger do not judge the
+	// order clause on the expiry index while the finding is open
+	expOrderJudged := true
+	if c11OpenNow().sortRace {
+		flip := false
+		for _, c := range s.Claimers {
+			if c.Lease != 0 || (s.Reload && c.Kind != "pe") {
+				flip = true
+			}
+		}
+		for _, m := range s.Mutators {
+			if m.ExpSec != 0 || (s.Reload && m.Kind == "delete") {
+				flip = true
+			}
+		}
+		if flip {
+			expOrderJudged = false
+			cls["expiry-order-not-judged(open finding)"] = true
+		}
+	}
 	// expiry changers (for the order check on the expiry index)
 	expTouched := map[string]bool{}
 	for _, m := range s.Mutators {
@@ -997,7 +1020,7 @@ func judgeC11(s C11Scenario, init map[string]kstate, cres []claimRes, mres []mut
 				switch {
 				case c.Kind == "se" || c.Index == "exp":
 					attr = ev.RetExp
-					exempt = expTouched[tr.Key]
+					exempt = expTouched[tr.Key] || !expOrderJudged
 				case c.Index == "cre":
 					attr = ev.RetCre
 				}
@@ -1068,7 +1091,7 @@ func judgeC11(s C11Scenario, init map[string]kstate, cres []claimRes, mres []mut
 				indexed[ev] = isIdx
 				add(p.Key, ev)
 				// oldest expired first, judged on records whose expiry nobody changes
-				if writerKeys[p.Key] {
+				if writerKeys[p.Key] || !expOrderJudged {
 					continue
 				}
 				if !expTouched[p.Key] || (c.Lease != 0 && !touchedByOthers(s, cres, i, p.Key)) {
@@ -1390,6 +1413,9 @@ const c11Rule = "swamp with 5–60 msgpack records {status, owner, n} (ExpiredAt
 func c11Excluded(facet string, o c11Open) {
 	if o.deadlock {
 		pbt.Excluded("C11", facet, "Delete / expiry-changing writes / other-index Shift* concurrent with a Shift* (open finding shift-vs-guard-holder-deadlock)")
+	}
+	if o.sortRace {
+		pbt.Excluded("C11", facet, "order clause on the expiry index in scenarios with a lease / expiry slide / removal of file-backed records (open finding expiry-sort-reads-live-values)")
 	}
 	if facet != "main" {
 		return
